@@ -192,7 +192,7 @@ PROPS["C04"] = {
         "C04.C04_field_metadata", "C04.C04_meta_single_segment", "C04.C04_meta_network", "C04.C04_meta_version",
         "C04.C04_meta_initiated_at", "C04.C04_meta_sealed_at", "C04.C04_params", "C04.C04_meta_params", "C04.C04_party",
         "C04.C04_entity_collision", "C04.C04_entity_collision_cert", "C04.C04_entity_partial_msd", "C04.C04_entity_partial_cdb",
-        "C04.C04_pm_single_value", "CertModel.segs_single", "CertModel.hexOf_inj",
+        "C04.C04_pm_single_value", "C04.C04_pm_digest_injective", "PmInj.preimage_injective", "PmInj.lex_pre", "CertModel.segs_single", "CertModel.hexOf_inj",
     ],
     "level_text": "Tamper evidence is proved field by field in Lean for the byte-exact model of the certificate hash pre-image (and the nested "
                   "metadata, parameter, party and protocol-message pre-images): two certificates that differ in one field have different hashes "
@@ -201,8 +201,8 @@ PROPS["C04"] = {
                   "the single-field sweep and the message/JSON round trip (shuffled field order, whitespace) are run on the real code. The "
                   "signed-entity variant collision is a proved counter-example and a known finding.",
     "level_note": "SHA-256 is a parameter of the theorems (collision disjunct); serde_json, chrono, the key/signature JSON-hex codecs and "
-                  "fixed::U8F24 are exercised by K/S, not modelled beyond the U8F24 rounding. Digest injectivity for protocol messages whose "
-                  "key SET differs (C04_pm_digest_injective) is not proved; the same-keys single-value case is.",
+                  "fixed::U8F24 are exercised by K/S, not modelled beyond the U8F24 rounding. Digest injectivity of protocol messages over the honest "
+                  "value grammar is proved by a verified lexer (PmInj); it is stated on the text, the ASCII text/bytes identification is by K.",
     "harness": [("harness", "c04")],
     "anchors": ["mithril-common/src/entities/certificate.rs", "mithril-common/src/entities/certificate_metadata.rs",
                 "mithril-common/src/entities/protocol_message.rs", "mithril-common/src/entities/protocol_parameters.rs",
@@ -214,7 +214,7 @@ PROPS["C04"] = {
     "trivial_tags": [],
     "trusted_base": ["rustc/cargo; harness bin c04; serde_json; chrono"],
     "assumptions": ["default features: ancillary prover/verifier data are uninhabited (future_snark off), so those two segments are empty"],
-    "goals_not_proved": ["C04_pm_digest_injective across different key sets (unique parsing of key/value concatenation): not proved",
+    "goals_not_proved": [
                          "C04_roundtrip (ofMessage (toMessage c) = c): S on the real code only",
                          "full single-field statement for the signed-entity VARIANT is FALSE (C04_entity_collision_cert): known finding C04-entity-variant"],
 }
@@ -345,7 +345,7 @@ PROPS["C11"] = {
     "lean_modules": ["MithrilModel.Properties.C11"],
     "theorems": ["C11.C11_set_sound", "C11.C11_set_committed", "C11.C11_set_sound_v2", "C11.C11_empty_rejected", "C11.C11_roots_must_agree",
                  "C11.C11_leaf_injective", "C11.C11_leaf_slash_note", "C11.C11_stake_leaf_counterexample", "C11.C11_stake_partial",
-                 "Proofs.verifyLegacy_sound", "Proofs.rootsLoop_sound", "C09.C09_map_sound", "C04.C04_pm_single_value"],
+                 "Proofs.verifyLegacy_sound", "Proofs.rootsLoop_sound", "C09.C09_map_sound", "C04.C04_pm_single_value", "C04.C04_pm_digest_injective"],
     "level_text": "Acceptance of a legacy or v2 proofs response is proved in Lean to imply: at least one part, every part's nested proof "
                   "verifies, all parts prove under the single returned root, every reported item's leaf is contained in its proof; with "
                   "C09_map_sound contained non-merge values are committed leaves of that root; the leaf encoders are injective on the honest "
@@ -368,7 +368,7 @@ PROPS["C11"] = {
     "trivial_tags": [],
     "trusted_base": ["rustc/cargo; harness bin c11; serde_json, bincode (proof encodings)"],
     "assumptions": ["Blake2s-256 collision resistance enters through C09's hypotheses"],
-    "goals_not_proved": ["C11_message_binding for messages whose key SET differs (C04_pm_digest_injective): not proved",
+    "goals_not_proved": [
                          "exactness of the verified stake distribution is FALSE in general (C11_stake_leaf_counterexample): known finding C11-stake-leaf; C11_stake_partial is the proved part"],
 }
 
